@@ -42,3 +42,33 @@ func vAssertShift(before, after *decimal, k int, left bool, id string) {
 		vFailures = append(vFailures, id)
 	}
 }
+
+func vAssertSetValue(lit []byte, d *decimal, id string) {
+	x, vneg := vLitRat(lit)
+	ok := x != nil && d.neg == vneg
+	if ok {
+		lo := vDecRat(d)
+		if d.trunc {
+			e := d.dp - d.nd
+			ulp := new(big.Rat).SetInt(new(big.Int).Exp(big.NewInt(10), big.NewInt(int64(abs(e))), nil))
+			if e < 0 {
+				ulp.Inv(ulp)
+			}
+			hi := new(big.Rat).Add(lo, ulp)
+			ok = lo.Cmp(x) < 0 && x.Cmp(hi) < 0
+		} else {
+			ok = lo.Cmp(x) == 0
+		}
+		for i := 0; i < d.nd; i++ {
+			if d.d[i] < '0' || d.d[i] > '9' {
+				ok = false
+			}
+		}
+		if d.nd > 0 && d.d[0] == '0' {
+			ok = false
+		}
+	}
+	if !ok {
+		vFailures = append(vFailures, id)
+	}
+}
